@@ -125,3 +125,5 @@ Proof.
   unfold Cexp. replace (Re (Cmult Ci (RtoC x))) with 0 by (simpl; ring).
   replace (Im (Cmult Ci (RtoC x))) with x by (simpl; ring). rewrite exp_0. apply Ceq; simpl; ring.
 Qed.
+Lemma RtoC_real_eq (z : C) x : fst z = x -> snd z = 0 -> z = RtoC x.
+Proof. intros H1 H2. apply Ceq; simpl; assumption. Qed.
